@@ -4,7 +4,8 @@ import OdxVerif.Proofs.CompReject2Described
     `C04_nested_partial` (`Props/C04Nested.lean`) restricted VALUE leaves to the integer kinds.  Here they may be of any kind of
     `Obj` — `A_INT32` (four encodings), `A_UINT32`, `A_FLOAT64`, `A_FLOAT32`, `A_BYTEFIELD`, `A_ASCIISTRING` (ISO-8859-1),
     `A_UTF8STRING`, `A_UNICODE2STRING` (UCS-2), BCD (packed / unpacked) — with or without PHYSICAL-DEFAULT-VALUE, at every
-    nesting depth of structures ∘ static / dynamic-length / END-OF-PDU fields ∘ multiplexers (class `DescribedP2`,
+    nesting depth of structures (with or without BYTE-SIZE) ∘ static / dynamic-length / END-OF-PDU fields (items with or without
+    BYTE-SIZE) ∘ multiplexers, plus LEADING-LENGTH-INFO-TYPE leaves over `A_BYTEFIELD` (class `DescribedP2`,
     `Proofs/CompReject2Described.lean`).  One rejection lemma covers all kinds: `Obj.rejectsW` (`Proofs/CompReject2Leaf.lean`).
 
     **Hypothesis `wfAtoms`** (explicit, decidable, a condition on the INPUT that every Python value meets): the bytes of every
@@ -340,5 +341,89 @@ example : ∃ cursor, decodeMessage none (PDescs.toParams bDesc) [0x2E, 7, 1, 0x
     cases hkvs
     obtain ⟨cursor, hdec⟩ := hrt hw (fun h => by cases h)
     exact ⟨cursor, hdec⟩
+
+/-! ## non-vacuity, LEADING-LENGTH-INFO-TYPE over A_BYTEFIELD
+    request = [ sid; ll : LEADING-LENGTH-INFO-TYPE, 2-bit length prefix (at most 3 bytes); tail ] -/
+def lSh : LeadShape := { name := "ll", bytePos := none, bitPos := none, enc := none, hl := true, bitLen := 2 }
+def lDesc : List PDesc := [PDesc.ofObjConst ⟨"sid", none, none, none, true, 8, .uint32⟩ (.int 0x2E), PDesc.ofLeadBytes lSh, pu8 "tail"]
+def lMk (x : PVal) : PVal := .dict [("ll", x), ("tail", .atom (.int 0x99))]
+
+theorem lDesc_described : ∀ p ∈ lDesc, DescribedP2 p := by
+  intro g hg
+  simp only [lDesc, List.mem_cons, List.mem_nil_iff, or_false] at hg
+  rcases hg with rfl | rfl | rfl
+  · exact DescribedP2.const _ _ (by simp [Obj.ok, Obj.encOk, Obj.sizeOk]) (by simp [Obj.inRange])
+  · exact DescribedP2.leadBytes lSh (by simp [LeadShape.ok, lSh])
+  · exact described_pu8' _
+
+theorem lDesc_names : PDescs.namesOk lDesc ∧ PDescs.eopLast lDesc := by
+  refine ⟨?_, ⟨rfl, rfl, trivial⟩⟩
+  simp [PDescs.namesOk, lDesc, PDesc.name, Param.name, PDesc.ofObjConst, Obj.toConstParam, PDesc.ofLeadBytes, LeadShape.leaf,
+    LeadLeaf.toParam, lSh, pu8, PDesc.ofObjValue, Obj.toParam]
+
+/-- accepted: the empty value and three bytes; rejected with `EncodeError`: four bytes (the 2-bit prefix cannot hold 4), a string,
+    an int, a list, omission -/
+example : [lMk (.atom (.bytes [])), lMk (.atom (.bytes [0xA1, 0xA2, 0xA3]))].map (fun p =>
+      (p.wfAtoms && p.typedForP lDesc && p.acceptedByP lDesc, (encodeMessage none (PDescs.toParams lDesc) p none true).toOption)) =
+    [(true, some ([0x2E, 0, 0x99], 0)), (true, some ([0x2E, 3, 0xA1, 0xA2, 0xA3, 0x99], 0))] := by decide +kernel
+example : [lMk (.atom (.bytes [1, 2, 3, 4])), lMk (.atom (.str [0x41])), lMk (.atom (.int 1)), lMk (.list []),
+      .dict [("tail", .atom (.int 1))]].all (fun p =>
+      p.wfAtoms && p.typedForP lDesc && p.acceptedByP lDesc == false && decide (p.needFor lDesc ≤ modelFuel) &&
+      errClass (encodeMessage none (PDescs.toParams lDesc) p none true) == some .encode) = true := by decide +kernel
+/-- the theorem applies: the PDU of the three-byte value decodes to its completion -/
+example : ∃ cursor, decodeMessage none (PDescs.toParams lDesc) [0x2E, 3, 0xA1, 0xA2, 0xA3, 0x99] true =
+    .ok (.dict (PDescs.complete lDesc [("ll", .atom (.bytes [0xA1, 0xA2, 0xA3])), ("tail", .atom (.int 0x99))]), cursor) := by
+  rcases C04_nested lDesc lDesc_described lDesc_names.1 lDesc_names.2 (lMk (.atom (.bytes [0xA1, 0xA2, 0xA3]))) (by decide +kernel) none
+    (by decide +kernel) (by decide +kernel) with ⟨e, he, _⟩ | ⟨kvs, pdu, w, hkvs, _, henc, hrt⟩
+  · have : (encodeMessage none (PDescs.toParams lDesc) (lMk (.atom (.bytes [0xA1, 0xA2, 0xA3]))) none true).toOption = none := by
+      rw [he]; rfl
+    exact absurd this (by decide +kernel)
+  · have h2 : (encodeMessage none (PDescs.toParams lDesc) (lMk (.atom (.bytes [0xA1, 0xA2, 0xA3]))) none true).toOption = some (pdu, w) := by
+      rw [henc]; rfl
+    have h4 : (encodeMessage none (PDescs.toParams lDesc) (lMk (.atom (.bytes [0xA1, 0xA2, 0xA3]))) none true).toOption
+        = some ([0x2E, 3, 0xA1, 0xA2, 0xA3, 0x99], 0) := by decide +kernel
+    rw [h2] at h4
+    simp only [Option.some.injEq, Prod.mk.injEq] at h4
+    obtain ⟨hp, hw⟩ := h4
+    subst hp
+    cases hkvs
+    obtain ⟨cursor, hdec⟩ := hrt hw (fun h => by cases h)
+    exact ⟨cursor, hdec⟩
+
+/-! ## the round-6 kinds outside the value-free class
+    DYNAMIC-ENDMARKER-FIELD, MATCHING-REQUEST-PARAM and MIN-MAX-LENGTH leaves in a position where a terminator is written have
+    components relative to the encoder STATE (`OkM` / `TopInv` of `Proofs/CompExt*.lean`), which an acceptance function
+    `Option PVal → Option Comp` does not see; for them: the positive direction is `C01_roundtrip_nested2`
+    (`Props/C01Nested2.lean`, with `EmLayout.miss` for every item of an end-marker field), the negative facts are below. -/
+
+/-- **DYNAMIC-ENDMARKER-FIELD without `EmLayout.miss`: accepted, and decoded to something else** (open finding
+    `end-marker-item-collision`).  `[sid; em : DYNAMIC-ENDMARKER-FIELD (termination value 0xFF, one byte) of { id : 8 bit }]`:
+    the items `[1, 0xFF, 2]` are accepted without warning (`2E 01 FF 02`); the decoder stops at the second item, which starts with
+    the termination value, and returns `[1]` (cursor 2 of 4) — the hypothesis `l.miss` of `Described2.endMarkerEop` /
+    `C01_roundtrip_nested2` cannot be dropped, and the encoder's acceptance does not imply it. -/
+def emParams : List Param :=
+  [(pu8 "sid").param,
+   .mk "em" none none (.value (.endMarkerField (.int 0xFF) (.simple (.std .uint32 none true 8 none false) .uint32 .identical)
+     (.struct none [(pu8 "id").param])) none)]
+def emVal (ids : List Int) : PVal :=
+  .dict [("sid", .atom (.int 0x2E)), ("em", .list (ids.map fun i => .dict [("id", .atom (.int i))]))]
+theorem C04_endmarker_collision_counterexample :
+    (encodeMessage none emParams (emVal [1, 0xFF, 2]) none true).toOption = some ([0x2E, 1, 0xFF, 2], 0) ∧
+    (match decodeMessage none emParams [0x2E, 1, 0xFF, 2] true with
+      | .ok (v, cursor) => pvalEq v (emVal [1]) && cursor == 2
+      | .error _ => false) = true ∧
+    -- without the colliding item the round trip holds
+    (encodeMessage none emParams (emVal [1, 2]) none true).toOption = some ([0x2E, 1, 2], 0) ∧
+    (match decodeMessage none emParams [0x2E, 1, 2] true with
+      | .ok (v, cursor) => pvalEq v (emVal [1, 2]) && cursor == 3
+      | .error _ => false) = true := by decide +kernel
+
+/-- **MATCHING-REQUEST-PARAM**: `[sid; echo : MATCHING-REQUEST-PARAM (request bytes 1–2)]` — rejected with `EncodeError` without a
+    triggering request and with one that is too short (`encodeParam_matchingReq_rej` is the general statement), accepted with
+    the echoed bytes otherwise -/
+example : let ps : List Param := [(pu8 "sid").param, .mk "echo" none none (.matchingReq 1 2)]
+    let pv : PVal := .dict [("sid", .atom (.int 0x62))]
+    [none, some [0x22], some [0x22, 0xF1]].all (fun t => errClass (encodeMessage none ps pv t true) == some .encode) = true ∧
+    (encodeMessage none ps pv (some [0x22, 0xF1, 0x90]) true).toOption = some ([0x62, 0xF1, 0x90], 0) := by decide +kernel
 
 end OdxVerif.Codec
